@@ -83,6 +83,13 @@ class Short(object):
         return r
 
 
+class ShortTell(Short):
+    """The same, but with a working tell() (and still no seek): e.g. a raw HTTP body object."""
+
+    def tell(self):
+        return self.pos
+
+
 def parse_variant(data_src, chunk=None, **kw):
     from .. import h5
     from html5lib import _inputstream
@@ -237,6 +244,7 @@ def run_input(ctx, data, rng, full):
         s = [rng.choice([1, 1, 2, 3, 5, 8]) for _ in range(rng.randint(2, 8))]
         go("nonseekable-short:%s:%s" % (lab, "-".join(map(str, s))), lambda: Short(b, s), transport_encoding=lab)
         go("nonseekable-chunk2:%s" % lab, lambda: Short(b, [10 ** 9]), chunk=2, transport_encoding=lab)
+        go("nonseekable-tell:%s" % lab, lambda: ShortTell(b, [10 ** 9]), transport_encoding=lab)
         go("bytes-chunk3:%s" % lab, lambda: b, chunk=3, transport_encoding=lab)
         go("bytes-chunk1:%s" % lab, lambda: b, chunk=1, transport_encoding=lab)
     for lab, bom in (("utf-8", b"\xef\xbb\xbf"), ("utf-16le", b"\xff\xfe"), ("utf-16be", b"\xfe\xff")):
@@ -319,12 +327,12 @@ def replay(ctx, case):
             src = Short(data, [int(x) for x in spec[4:].split("-")])
     elif kind[0] == "chunk":
         src, chunk = data, int(kind[1])
-    elif kind[0] in ("bytes", "BytesIO", "nonseekable", "nonseekable-short", "bytes-chunk3", "bytes-chunk1", "nonseekable-chunk2"):
+    elif kind[0] in ("bytes", "BytesIO", "nonseekable", "nonseekable-short", "bytes-chunk3", "bytes-chunk1", "nonseekable-chunk2", "nonseekable-tell"):
         lab = kind[1]
         b = webencodings.lookup(lab).codec_info.encode(data)[0]
         kw = {"transport_encoding": lab}
         src = {"bytes": b, "BytesIO": io.BytesIO(b), "nonseekable": Short(b, [10 ** 9]), "bytes-chunk3": b, "bytes-chunk1": b,
-               "nonseekable-chunk2": Short(b, [10 ** 9])}.get(kind[0])
+               "nonseekable-chunk2": Short(b, [10 ** 9]), "nonseekable-tell": ShortTell(b, [10 ** 9])}.get(kind[0])
         if kind[0] == "nonseekable-short":
             src = Short(b, [int(x) for x in kind[2].split("-")])
         chunk = {"bytes-chunk3": 3, "bytes-chunk1": 1, "nonseekable-chunk2": 2}.get(kind[0])
